@@ -20,16 +20,16 @@ import (
 
 func init() { register("C09", "exploration", runC09) }
 
-var c09Names = []string{"p", "p.txt", "d/q", "d/e/r", "d.x", "d-y", "s t", "ü", "d/q.bin", "d/e.1/r", "d/e-2/r", "d!/q"}
+var c09Names = []string{"p", "p.txt", "d/q", "d/e/r", "d.x", "d-y", "s t", "ü", "d/q.bin", "d/e.1/r", "d/e-2/r", "d!/q", "report.csv", "report/2024.csv", "report-old"}
 
 func c09Opts() *progOpts {
 	return &progOpts{Buckets: []string{"vb1", "vb2"}, Names: c09Names, FileRules: true, CondPct: 25, JunkPct: 3, MD5Pct: 20, BigPerMille: 3,
-		W: map[string]int{"upload": 22, "overwrite": 16, "burst": 3, "delete": 14, "delete_absent": 3, "patch": 14, "patch_burst": 3, "patch_absent": 2, "compose": 9, "copy": 10, "noop": 2}}
+		W: map[string]int{"upload": 22, "overwrite": 16, "burst": 3, "delete": 14, "delete_absent": 3, "patch": 10, "patch_full": 7, "patch_burst": 3, "patch_absent": 2, "compose": 9, "copy": 10, "noop": 2}}
 }
 
 // C09: the file store persists everything and is equivalent to the memory store.
 func runC09(run *common.Run) {
-	run.Rule = "sub 'restart': one generated program (30-60 steps: uploads by all protocols, overwrites, patches, deletes, compose, copy within/across 2 buckets, conditioned and failing requests; names representable as files, interleaving files and directories such as d/q, d.x, d-y) against file-store instance 1; after EVERY request a second emulator instance is started on the same directory and its whole-store dump (bucket GET, full listing, metadata + media of every name) must equal instance 1's dump (host names rewritten) and the reference model, generations and metagenerations exactly; at the end content files without a sidecar are dropped into the directory and must be listed, served with size and a generation, and deletable. Sub 'equiv': the same program (same PRNG stream) fed to a memory-store and a file-store emulator in lock-step; every deciding response (status + full body, resumable sub-requests) and every whole-store dump must be equal after renaming generations to per-store ordinals of first appearance and dropping timestamps and host:port. Sub 'kill': the real gcsemulator binary built from /repo with -dir, SIGKILLed between requests and restarted. Non-trivial = the program had a successful patch, delete, overwrite and compose-or-copy (restart: and >= 20 second-instance dumps compared); distinct by hash of the step log."
+	run.Rule = "sub 'restart': one generated program (30-60 steps: uploads by all protocols, overwrites, patches, deletes, compose, copy within/across 2 buckets, conditioned and failing requests; names representable as files, interleaving files and directories such as d/q, d.x, d-y, report.csv vs report/2024.csv, sibling directories d/e, d/e.1, d/e-2; read-modify-write patches sending back full resources) against file-store instance 1; after EVERY request a second emulator instance is started on the same directory and its whole-store dump (bucket GET, full listing, the listing paged with maxResults 1, 2 and 3 along the token chain, metadata + media of every name) must equal instance 1's dump (host names rewritten) and the reference model, generations and metagenerations exactly; at the end content files without a sidecar are dropped into the directory and must be listed, served with size and a generation, and deletable. Sub 'equiv': the same program (same PRNG stream) fed to a memory-store and a file-store emulator in lock-step; every deciding response (status + full body, resumable sub-requests) and every whole-store dump (incl. the concatenated paged listings) must be equal after renaming generations to per-store ordinals of first appearance and dropping timestamps and host:port. Sub 'kill': the real gcsemulator binary built from /repo with -dir, SIGKILLed between requests and restarted. Non-trivial = the program had a successful patch, delete, overwrite and compose-or-copy (restart: and >= 20 second-instance dumps compared); distinct by hash of the step log."
 	run.Assumptions = []string{
 		"programs use only names representable as files (no empty / '.' / '..' component, no trailing '/', no name that is a directory prefix of a live name, no .emumeta suffix, components <= 255 bytes)",
 		"the file store keeps no write-back state, so a second instance on the same directory sees what a kill between requests would leave; real SIGKILL/restart cycles of the gcsemulator binary confirm the command-line wiring",
@@ -87,6 +87,7 @@ func c09Restart(run *common.Run, idx int) {
 		return
 	}
 	defer srv.Close()
+	srv.Client.PagedSizes = []int{1, 2, 3}
 	e := newExec(srv, true)
 	defer e.flush(run)
 	fail := func(what string) {
@@ -110,6 +111,7 @@ func c09Restart(run *common.Run, idx int) {
 			return false
 		}
 		defer s2.Close()
+		s2.Client.PagedSizes = srv.Client.PagedSizes
 		d2 := s2.Client.Dump(e.namesToDump(), func(b, n string) []int { return []int{drive.FormJSON} })
 		for k, v := range s2.Client.Counts() {
 			run.Count(k, v)
@@ -297,6 +299,7 @@ func c09Equiv(run *common.Run, idx int) {
 			return
 		}
 		defer srv.Close()
+		srv.Client.PagedSizes = []int{1, 2, 3}
 		sides[i] = &side{srv: srv, e: newExec(srv, true), r: run.Rand("C09.equiv", idx), nz: &normalizer{gens: map[string]string{}}}
 		defer sides[i].e.flush(run)
 	}
@@ -321,7 +324,10 @@ func c09Equiv(run *common.Run, idx int) {
 	compare := func(where string) bool {
 		a, b := sides[0], sides[1]
 		ra, rb := a.e.steps[len(a.e.steps)-1].Req, b.e.steps[len(b.e.steps)-1].Req
-		if reGen.ReplaceAllString(ra, "G") != reGen.ReplaceAllString(rb, "G") {
+		normReq := func(q string) string {
+			return reGen.ReplaceAllString(reTime.ReplaceAllString(reHost.ReplaceAllString(q, "HOST"), "TIME"), "G")
+		}
+		if normReq(ra) != normReq(rb) {
 			fail(where + ": the two stores' programs diverged (an earlier response differed): memory " + ra + " / file " + rb)
 			return false
 		}
@@ -440,6 +446,7 @@ func c09Kill(run *common.Run, idx int, bin string) {
 	}
 	defer func() { p.kill() }()
 	srv := &drive.Server{Kind: "file", Dir: dir, Base: p.base, Client: drive.NewClient(p.base)}
+	srv.Client.PagedSizes = []int{1, 2, 3}
 	e := newExec(srv, true)
 	defer func() { e.flush(run) }()
 	fail := func(what string) {
@@ -478,6 +485,7 @@ func c09Kill(run *common.Run, idx int, bin string) {
 				return
 			}
 			e.cl = drive.NewClient(p.base)
+			e.cl.PagedSizes = []int{1, 2, 3}
 			e.rec("SIGKILL gcsemulator, restart with the same -dir", "same buckets, objects, contents, metadata, generations", "restarted", nil)
 			kills++
 			d := e.cl.Dump(e.namesToDump(), nil)
